@@ -270,11 +270,17 @@ def lint_consts(repo):
 
     # ---- manager/mod.rs: who runs ------------------------------------------------------------------------
     mgr = S["mgr"]
-    v1 = re.findall(r"Rc::new\(RefCell::new\(\s*(\w+)::new\(\)\s*\)\)", extract.fn_body(mgr, "analyze_ast"))
+    aa = extract.fn_body(mgr, "analyze_ast")
+    v1 = [x.split("::")[-1] for x in re.findall(r"Rc::new\(RefCell::new\(\s*([\w:]+)::new\(\)\s*\)\)", aa)]
+    if len(v1) != len(re.findall(r"Rc::new\(", aa)) or not re.search(r"ast_walker\.register_visitors\(&analyzers\)", aa) \
+            or len(re.findall(r"register_visitor", aa)) != 1:
+        raise ValueError("manager: analyze_ast registers analyzers in a form that is not recognised")
     g = extract.fn_body(mgr, "generate_diags_on_annotated_ast")
-    decl = dict(re.findall(r"let\s+(\w+)\s*:\s*Box<dyn IAnnotatedNodeVisitor>\s*=\s*Box::new\(\s*(\w+)::new\(", g))
+    decl = {k: v.split("::")[-1] for k, v in
+            re.findall(r"let\s+(\w+)\s*:\s*Box<dyn IAnnotatedNodeVisitor>\s*=\s*Box::new\(\s*([\w:]+)::new\(", g)}
     order = re.findall(r"walker\.register_visitor\(\s*(\w+)\s*\)", g)
-    if not v1 or not order or any(o not in decl for o in order):
+    if not v1 or not order or any(o not in decl for o in order) or len(order) != len(re.findall(r"register_visitor", g)) \
+            or len(decl) != len(re.findall(r"Box::new\(", g)):
         raise ValueError("manager: analyzer registration not recognised")
     d("v1Analyzers", "List String", strs(v1), "manager/mod.rs `analyze_ast`: analyzers on the plain AST, in order")
     d("v2Analyzers", "List String", strs([decl[o] for o in order]),
@@ -293,76 +299,118 @@ def lint_consts(repo):
 
 @extract.item("E9_FoldSites")
 def fold_sites(repo):
+    """every site is read on its own; a site whose pattern no longer matches is recorded as NOT folded /
+    NOT reset (fail closed per site), so that only the theorems that depend on it stop checking"""
     S = _sources(repo)
     sites = []   # (name, insertFolded, lookupFolded, doc)
     resets = []  # (name, bool)
+    unreadable = []
 
-    # unused-var map: cur_local_vars
-    unu = S["unused"]
-    ins = _call_args(unu, "self.cur_local_vars", "insert")
-    look = _call_args(unu, "self.cur_local_vars", "get_mut") + _call_args(unu, "self.cur_local_vars", "get")
-    if len(ins) != 1 or len(look) < 2:
-        raise ValueError("unused-var map: %d inserts, %d lookups" % (len(ins), len(look)))
-    sites.append(("unusedVarMap", all(map(_folded, ins)), all(map(_folded, look)),
-                  "unused_var_analyzer.rs `cur_local_vars`: insert=%s lookups=%s" % (ins, look)))
-    rs = True
-    for ty in ("AstProcedure", "AstFunction"):
-        b = _arm_body(unu, "visit", ty)
-        rs = rs and "check_unused_vars()" in b and re.search(r"self\.cur_local_vars\s*=\s*HashMap::new\(\)", b) is not None
-    resets.append(("unusedVarMap", rs))
+    def site(name, f):
+        try:
+            a, b, doc = f()
+        except Exception as e:  # fail closed for this site
+            a, b, doc = False, False, "NOT READABLE (%s) - treated as not folded" % str(e).replace("\n", " ")
+            unreadable.append(name)
+        sites.append((name, bool(a), bool(b), doc))
 
-    # unpurged map: byte_array_seen
-    unp = S["unp"]
-    ins = _call_args(unp, "self.byte_array_seen", "insert")
-    look = _call_args(unp, "self.byte_array_seen", "get_mut") + _call_args(unp, "self.byte_array_seen", "get")
-    if len(ins) != 1 or len(look) != 1:
-        raise ValueError("unpurged map: %d inserts, %d lookups" % (len(ins), len(look)))
-    sites.append(("unpurgedMap", all(map(_folded, ins)), all(map(_folded, look)),
-                  "unpurged_varbytearray_checker.rs `byte_array_seen`: insert=%s lookup=%s" % (ins, look)))
-    rs = True
-    for ty in ("AstProcedure", "AstFunction"):
-        b = _arm_body(unp, "handle_method_decl", ty)
-        rs = rs and "generate_diags_for_unpurged()" in b and "byte_array_seen.clear()" in b
-    resets.append(("unpurgedMap", rs))
+    def reset(name, f):
+        try:
+            v = bool(f())
+        except Exception:
+            v = False
+            unreadable.append("reset:" + name)
+        resets.append((name, v))
 
-    # inherited: the method-name set and the comparison of the called name
-    inh = S["inh"]
-    keys = re.findall(r'methods_to_check\.insert\(\s*"([^"]+)"\s*\)', inh)
-    look = _call_args(inh, "self.methods_to_check", "contains")
-    if not keys or len(look) != 1:
-        raise ValueError("inherited: method set not recognised")
-    sites.append(("inheritedMethodSet", all(k == k.upper() for k in keys), all(map(_folded, look)),
-                  "inherited_checker.rs `methods_to_check`: keys=%s lookup=%s" % (keys, look)))
-    cmp_ = re.search(r"if\s+bin_op\.right_node\.get_identifier\(\)(\.to_uppercase\(\))?\s*==\s*cur_method\.read\(\)\.unwrap\(\)\.get_identifier\(\)(\.to_uppercase\(\))?\s*\{", inh)
-    if not cmp_:
-        raise ValueError("inherited: comparison of the called name not recognised")
-    sites.append(("inheritedCallName", cmp_.group(1) is not None, cmp_.group(2) is not None,
-                  "inherited_checker.rs: right operand vs current method name"))
-    hm = extract.fn_body(inh, "handle_method_node")
-    resets.append(("inheritedFlag", "self.check_inherited_called()" in hm and re.search(r"self\.is_inherited_called\s*=\s*false", hm) is not None
-                   and re.search(r"self\.current_method\s*=\s*Some\(node\.clone\(\)\)", hm) is not None))
-    for ty in ("AstProcedure", "AstFunction"):
-        if "self.handle_method_node(node, context)" not in _arm_body(inh, "visit_w_context", ty):
-            raise ValueError("inherited: %s no longer starts a method" % ty)
-    pm = re.search(r'token\.get_value\(\)(\.to_uppercase\(\))?\.as_str\(\)\s*==\s*"([^"]+)"', inh)
-    if not pm:
-        raise ValueError("inherited: pass comparison not recognised")
-    sites.append(("passName", pm.group(2) == pm.group(2).upper(), pm.group(1) is not None, "inherited_checker.rs: terminal value vs PASS"))
+    unu, unp, inh, ret = S["unused"], S["unp"], S["inh"], S["ret"]
 
-    # constant comparisons
-    ret = S["ret"]
-    keys = re.findall(r'tok_val\s*==\s*"([^"]+)"', ret)
-    tv = re.search(r"let\s+tok_val\s*=\s*token\.get_value_as_str\(\)(\.to_uppercase\(\))?\s*;", ret)
-    if not keys or not tv:
-        raise ValueError("return type: comparison not recognised")
-    sites.append(("returnTypeName", all(k == k.upper() for k in keys), tv.group(1) is not None,
-                  "function_return_type_checker.rs: tok_val vs %s" % keys))
-    m1 = re.search(r'type_node\.get_identifier\(\)(\.to_uppercase\(\))?\.as_str\(\)\s*==\s*"([^"]+)"', unp)
-    m2 = re.search(r'method_call\.get_identifier\(\)(\.to_uppercase\(\))?\.as_str\(\)\s*==\s*"([^"]+)"', unp)
-    if not m1 or not m2:
-        raise ValueError("unpurged: constant comparisons not recognised")
-    sites.append(("byteArrayTypeName", m1.group(2) == m1.group(2).upper(), m1.group(1) is not None, "unpurged checker: local type vs %s" % m1.group(2)))
-    sites.append(("purgeName", m2.group(2) == m2.group(2).upper(), m2.group(1) is not None, "unpurged checker: call name vs %s" % m2.group(2)))
+    def unused_map():
+        ins = _call_args(unu, "self.cur_local_vars", "insert")
+        look = _call_args(unu, "self.cur_local_vars", "get_mut") + _call_args(unu, "self.cur_local_vars", "get")
+        if len(ins) != 1 or len(look) < 2:
+            raise ValueError("unused-var map: %d inserts, %d lookups" % (len(ins), len(look)))
+        return all(map(_folded, ins)), all(map(_folded, look)), \
+            "unused_var_analyzer.rs `cur_local_vars`: insert=%s lookups=%s" % (ins, look)
+    site("unusedVarMap", unused_map)
+
+    def unused_reset():
+        rs = True
+        for ty in ("AstProcedure", "AstFunction"):
+            b = _arm_body(unu, "visit", ty)
+            rs = rs and "check_unused_vars()" in b and re.search(r"self\.cur_local_vars\s*=\s*HashMap::new\(\)", b) is not None
+        return rs
+    reset("unusedVarMap", unused_reset)
+
+    def unpurged_map():
+        ins = _call_args(unp, "self.byte_array_seen", "insert")
+        look = _call_args(unp, "self.byte_array_seen", "get_mut") + _call_args(unp, "self.byte_array_seen", "get")
+        if len(ins) != 1 or len(look) != 1:
+            raise ValueError("unpurged map: %d inserts, %d lookups" % (len(ins), len(look)))
+        return all(map(_folded, ins)), all(map(_folded, look)), \
+            "unpurged_varbytearray_checker.rs `byte_array_seen`: insert=%s lookup=%s" % (ins, look)
+    site("unpurgedMap", unpurged_map)
+
+    def unpurged_reset():
+        rs = True
+        for ty in ("AstProcedure", "AstFunction"):
+            b = _arm_body(unp, "handle_method_decl", ty)
+            rs = rs and "generate_diags_for_unpurged()" in b and "byte_array_seen.clear()" in b
+        return rs
+    reset("unpurgedMap", unpurged_reset)
+
+    def inh_set():
+        keys = re.findall(r'methods_to_check\.insert\(\s*"([^"]+)"\s*\)', inh)
+        look = _call_args(inh, "self.methods_to_check", "contains")
+        if not keys or len(look) != 1:
+            raise ValueError("inherited: method set not recognised")
+        return all(k == k.upper() for k in keys), all(map(_folded, look)), \
+            "inherited_checker.rs `methods_to_check`: keys=%s lookup=%s" % (keys, look)
+    site("inheritedMethodSet", inh_set)
+
+    def inh_call():
+        cmp_ = re.search(r"if\s+bin_op\.right_node\.get_identifier\(\)(\.to_uppercase\(\))?\s*==\s*cur_method\.read\(\)\.unwrap\(\)\.get_identifier\(\)(\.to_uppercase\(\))?\s*\{", inh)
+        if not cmp_:
+            raise ValueError("inherited: comparison of the called name not recognised")
+        return cmp_.group(1) is not None, cmp_.group(2) is not None, "inherited_checker.rs: right operand vs current method name"
+    site("inheritedCallName", inh_call)
+
+    def inh_reset():
+        hm = extract.fn_body(inh, "handle_method_node")
+        ok = "self.check_inherited_called()" in hm and re.search(r"self\.is_inherited_called\s*=\s*false", hm) is not None \
+            and re.search(r"self\.current_method\s*=\s*Some\(node\.clone\(\)\)", hm) is not None
+        for ty in ("AstProcedure", "AstFunction"):
+            ok = ok and "self.handle_method_node(node, context)" in _arm_body(inh, "visit_w_context", ty)
+        return ok
+    reset("inheritedFlag", inh_reset)
+
+    def pass_name():
+        pm = re.search(r'token\.get_value\(\)(\.to_uppercase\(\))?\.as_str\(\)\s*==\s*"([^"]+)"', inh)
+        if not pm:
+            raise ValueError("inherited: pass comparison not recognised")
+        return pm.group(2) == pm.group(2).upper(), pm.group(1) is not None, "inherited_checker.rs: terminal value vs PASS"
+    site("passName", pass_name)
+
+    def ret_name():
+        keys = re.findall(r'tok_val\s*==\s*"([^"]+)"', ret)
+        tv = re.search(r"let\s+tok_val\s*=\s*token\.get_value_as_str\(\)(\.to_uppercase\(\))?\s*;", ret)
+        if not keys or not tv:
+            raise ValueError("return type: comparison not recognised")
+        return all(k == k.upper() for k in keys), tv.group(1) is not None, "function_return_type_checker.rs: tok_val vs %s" % keys
+    site("returnTypeName", ret_name)
+
+    def ba_name():
+        m1 = re.search(r'type_node\.get_identifier\(\)(\.to_uppercase\(\))?\.as_str\(\)\s*==\s*"([^"]+)"', unp)
+        if not m1:
+            raise ValueError("unpurged: type comparison not recognised")
+        return m1.group(2) == m1.group(2).upper(), m1.group(1) is not None, "unpurged checker: local type vs %s" % m1.group(2)
+    site("byteArrayTypeName", ba_name)
+
+    def purge_name():
+        m2 = re.search(r'method_call\.get_identifier\(\)(\.to_uppercase\(\))?\.as_str\(\)\s*==\s*"([^"]+)"', unp)
+        if not m2:
+            raise ValueError("unpurged: call-name comparison not recognised")
+        return m2.group(2) == m2.group(2).upper(), m2.group(1) is not None, "unpurged checker: call name vs %s" % m2.group(2)
+    site("purgeName", purge_name)
 
     L = ["namespace Gold.E9", "", "/-- name-keyed maps, sets and constant comparisons of the analyzers -/", "inductive Site where"]
     L += ["  | %s" % s[0] for s in sites]
@@ -377,4 +425,7 @@ def fold_sites(repo):
     L += ["deriving DecidableEq, Repr", "", "def resetsAtMethod : StateSite → Bool"]
     L += ["  | .%s => %s" % (r[0], "true" if r[1] else "false") for r in resets]
     L += ["", "end Gold.E9", ""]
-    return "\n".join(L), "; ".join("%s=%s/%s" % (s[0], s[1], s[2]) for s in sites) + "; resets " + ",".join("%s=%s" % r for r in resets)
+    detail = "; ".join("%s=%s/%s" % (s[0], s[1], s[2]) for s in sites) + "; resets " + ",".join("%s=%s" % r for r in resets)
+    if unreadable:
+        detail += "; UNREADABLE (recorded as false): " + ",".join(unreadable)
+    return "\n".join(L), detail
